@@ -221,6 +221,10 @@ main(int argc, char *argv[])
                 if (back > 0 && back < HUGE_VAL) {
                     elo[n] = (long)ceill(E - TOL); /* logmath_exp(v) is B^v up to rounding */
                     ehi[n] = (long)floorl(E + TOL);
+                } else if ((long double)v[n] * lnB > -700.0L && (long double)v[n] * lnB < 700.0L) {
+                    /* B^v is an ordinary double (e^-700 .. e^700) and the library returned 0 or infinity for it */
+                    elo[n] = v[n] + 1;
+                    ehi[n] = v[n] - 1;
                 } else { /* under/overflow of the double: no statement */
                     elo[n] = v[n];
                     ehi[n] = v[n];
